@@ -950,7 +950,9 @@ impl Graph {
             }
         }
 
-        let parent_id = *parents.iter().next().unwrap();
+        // if a lookup is itself the root of the graph it has no parent, and
+        // there is no lookup list to promote it in
+        let parent_id = *parents.iter().next()?;
         Some((can_promote, parent_id))
     }
 
